@@ -45,10 +45,18 @@ var pwClasses = []pwClass{
 		return mix(r, randAlnum(r, 2+r.IntN(6)), pick(r, "!", "#", "$", "%", "&", "-", "_", "+", "(", ")", "\\", "/", "~", "*", "@", "'", "\"", "<", "[", "{", "^", "`", "|", "=", ".", ",", ";", ":", "?"))
 	}},
 	{"ascii-space", true, true, func(r *rand.Rand) string { return randAlnum(r, 1+r.IntN(4)) + " " + randAlnum(r, 1+r.IntN(4)) }},
-	{"digit-first", true, true, func(r *rand.Rand) string { return randFrom(r, []rune("0123456789"), 1+r.IntN(3)) + randAlnum(r, r.IntN(5)) }},
-	{"latin1-letters", true, true, func(r *rand.Rand) string { return mix(r, randAlnum(r, 1+r.IntN(5)), randFrom(r, []rune("äöüßéèêñçåøÆÐÞÿ"), 1+r.IntN(3))) }},
-	{"latin1-symbols", true, true, func(r *rand.Rand) string { return mix(r, randAlnum(r, 2+r.IntN(5)), randFrom(r, []rune("£§©¿±¤«»µ¶·¡¢¥¦¬®°×÷"), 1)) }},
-	{"pdfdoc-0x80-0xA0", true, false, func(r *rand.Rand) string { return mix(r, randAlnum(r, 2+r.IntN(5)), randFrom(r, []rune("€•†…—ŒšŽ™"), 1)) }},
+	{"digit-first", true, true, func(r *rand.Rand) string {
+		return randFrom(r, []rune("0123456789"), 1+r.IntN(3)) + randAlnum(r, r.IntN(5))
+	}},
+	{"latin1-letters", true, true, func(r *rand.Rand) string {
+		return mix(r, randAlnum(r, 1+r.IntN(5)), randFrom(r, []rune("äöüßéèêñçåøÆÐÞÿ"), 1+r.IntN(3)))
+	}},
+	{"latin1-symbols", true, true, func(r *rand.Rand) string {
+		return mix(r, randAlnum(r, 2+r.IntN(5)), randFrom(r, []rune("£§©¿±¤«»µ¶·¡¢¥¦¬®°×÷"), 1))
+	}},
+	{"pdfdoc-0x80-0xA0", true, false, func(r *rand.Rand) string {
+		return mix(r, randAlnum(r, 2+r.IntN(5)), randFrom(r, []rune("€•†…—ŒšŽ™"), 1))
+	}},
 	{"long-33-40", true, false, func(r *rand.Rand) string { return randAlnum(r, 33+r.IntN(8)) }},
 	{"greek-cyrillic-cjk", false, true, func(r *rand.Rand) string {
 		return mix(r, randAlnum(r, r.IntN(4)), pick(r, "κωδικός", "пароль", "слово", "日本語", "密码", "ключ"))
@@ -57,7 +65,9 @@ var pwClasses = []pwClass{
 	{"nfkc-compat", false, true, func(r *rand.Rand) string {
 		return mix(r, randAlnum(r, 1+r.IntN(5)), pick(r, "ﬁ", "ﬂ", "Ⅸ", "ª", "º", "Ａ", "ｚ", "①", "㎏", "ǅ", "²", "½"))
 	}},
-	{"decomposed", false, true, func(r *rand.Rand) string { return mix(r, randAlnum(r, 1+r.IntN(5)), pick(r, "e\u0301", "A\u030a", "n\u0303", "u\u0308", "c\u0327")) }},
+	{"decomposed", false, true, func(r *rand.Rand) string {
+		return mix(r, randAlnum(r, 1+r.IntN(5)), pick(r, "e\u0301", "A\u030a", "n\u0303", "u\u0308", "c\u0327"))
+	}},
 	{"b1-map-to-nothing", false, true, func(r *rand.Rand) string {
 		return mix(r, randAlnum(r, 2+r.IntN(5)), pick(r, "\u00ad", "\u034f", "\u1806", "\u180b", "\u200c", "\u200d", "\u2060", "\ufe00", "\ufe0f", "\ufeff"))
 	}},
